@@ -58,3 +58,47 @@ def run(ctx, fx, files=None, rule="R-CAPSRC", only=None, callee_rx=None):
                                       % (fid.rsplit("::", 1)[-1], c["f"], c["ln"]), fn.file, c["ln"])
     ctx.instance(rule + ".sites", n)
     return n
+
+
+# ------------------------------------------------------------------ R-HINT
+_ALLOWED = re.compile(r"::(reserve|reserve_exact|try_reserve|try_reserve_exact|with_capacity|with_capacity_in|min|max|saturating_add|"
+                      r"saturating_sub|saturating_mul|checked_add|checked_mul|unwrap_or|unwrap_or_default|branch|from_residual|next_power_of_two)$")
+
+
+def hint_only_reserves(ctx, fx, files, rule="R-HINT", only=None):
+    """`Iterator::size_hint` is advisory (a lower bound for filter/flat_map chains, 0 for many adaptors). A value derived
+    from it may size a reservation; it must not be added to an atomic counter (id / cursor allocation) nor stored into
+    a field of the object: ids or lengths booked from the hint disagree with the number of items actually consumed."""
+    from vlib.mir import rv_operands
+    n = 0
+    for f in files:
+        for fid in fx.fn_ids(f):
+            if "::tests::" in fid or fid.endswith("::size_hint") or (only and not only(fid)):
+                continue
+            for k in range(fx.count(fid)):
+                fn = Fn(fx.raw(fid, k))
+                for b, c in fn.calls():
+                    if not c["f"].endswith("::size_hint"):
+                        continue
+                    n += 1
+                    ctx.analysed_fns.add(fid)
+                    fw = fn.forward_locals([c["d"][0]]) | {c["d"][0]}
+                    bad = None
+                    for b2, c2 in fn.calls():
+                        if re.search(r"atomic::Atomic[\w:<>]*::(fetch_add|fetch_sub|store|swap|fetch_max)$", c2["f"]) and \
+                                any(op_local(a) in fw for a in c2["a"][1:]):
+                            bad = ("is added to / stored in an atomic counter (%s)" % c2["f"].rsplit("::", 1)[-1], c2["ln"])
+                    if bad is None:
+                        for loc, st in fn.iter_locs():
+                            if st[0] == "a" and len(st[1]) > 1 and any(isinstance(e, str) and e.startswith(".") for e in st[1][1:]) and \
+                                    "*" in st[1][1:] and any(op_local(o) in fw for o in rv_operands(st[2])):
+                                bad = ("is stored into a field of the object", st[3])
+                    ok = bad is None
+                    ctx.obligation(rule, fid, "size_hint only sizes reservations", ok, sample={"fn": fid, "line": c["ln"]})
+                    if not ok:
+                        ctx.violation(rule, fid, "size_hint used as a count",
+                                      "%s takes Iterator::size_hint (line %d) and the value %s at line %d: the hint is only a lower bound, so "
+                                      "the booked amount and the number of items consumed can differ"
+                                      % (fid.rsplit("::", 1)[-1], c["ln"], bad[0], bad[1]), fn.file, bad[1])
+    ctx.instance(rule + ".sites", n)
+    return n
